@@ -7,6 +7,8 @@ CONSTANTS
   MCHows = {"commit", "rollback", "empty"}
   Plans <- MCPlans
   RPlans <- MCRPlans
+  RModes <- MCRModes
+  MCRModeSet = {"latest"}
   InitVid = 2
   Policers = {}
   PPlans <- MCPPlans
